@@ -476,7 +476,7 @@ func identityPaths() []string {
 	return idPaths
 }
 
-func binPath() string { return filepath.Join(core.VerifDir(), ".build", "honeytrap") }
+func binPath() string { return filepath.Join(core.BuildDir(), "honeytrap") }
 
 func runScenario(k int, sc scenario) scnObs {
 	var ob scnObs
